@@ -18,6 +18,8 @@ pub enum EquivAny {
     /// a union of many small components (20-200 arguments): the complete extensions are the products of
     /// the components' complete extensions, so "same complete extensions" is decided exactly per component
     Composite(crate::checks::composite::CompositeCase),
+    /// in-degrees of 2^16 and beyond
+    HugeFan(crate::checks::hugefan::HugeFan),
 }
 
 #[derive(Clone, PartialEq, Eq, Debug)]
@@ -251,7 +253,7 @@ impl Prop for Equiv {
         "C19"
     }
     fn rule(&self) -> String {
-        "Frameworks with compact ids (direct, ICCMA'23 reader keeping duplicate attack lines, Aspartix reader), <=10 (quick) / <=13 (thorough) arguments from the mixed-shape generator plus all digraphs on <=3 / <=4 arguments. Classes = reduced_arg_to_init_args of every argument of reduced_af(): they must partition the original arguments; init_to_reduced_arg(a)'s class contains a and is one of those classes; every class lies inside or outside each brute-force complete extension; the grounded extension and the set it defeats each lie within one class; no panic. One case in 300 is a union of 3-30 small components (20-200 arguments, interleaved ids, optionally joined into one connected component through a defeated hub): complete extensions are products, so every class must consist of arguments with the same signature (in all / in none / same component and same membership vector over that component's complete extensions); partition, inverse mappings, grounded and defeated classes as above. Non-trivial: some class has >=2 members that are neither in the grounded extension nor defeated by it; distinct = (graph, presentation kind).".into()
+        "Frameworks with compact ids (direct, ICCMA'23 reader keeping duplicate attack lines, Aspartix reader), <=10 (quick) / <=13 (thorough) arguments from the mixed-shape generator plus all digraphs on <=3 / <=4 arguments. Classes = reduced_arg_to_init_args of every argument of reduced_af(): they must partition the original arguments; init_to_reduced_arg(a)'s class contains a and is one of those classes; every class lies inside or outside each brute-force complete extension; the grounded extension and the set it defeats each lie within one class; no panic. One case in 300 is a union of 3-30 small components (20-200 arguments, interleaved ids, optionally joined into one connected component through a defeated hub): complete extensions are products, so every class must consist of arguments with the same signature (in all / in none / same component and same membership vector over that component's complete extensions); partition, inverse mappings, grounded and defeated classes as above. One case in 6000 gives one argument of a small core 250 to 131075 attackers (distinct, a prefix defeated; or one line repeated), judged exactly as well. Non-trivial: some class has >=2 members that are neither in the grounded extension nor defeated by it; distinct = (graph, presentation kind).".into()
     }
     fn assumptions(&self) -> Vec<String> {
         vec!["oracle.rs complete extensions".into(), "compact ids, as produced by the readers".into()]
@@ -260,7 +262,15 @@ impl Prop for Equiv {
         let nmax = tier.pick(10, 13);
         let small = (gen::graph(nmax), gen::pres_compact(nmax)).prop_map(|(g, pres)| EquivAny::Small(GraphCase { g, pres }));
         let composite = crate::checks::statics::composite_strategy(tier).prop_map(EquivAny::Composite);
-        prop_oneof![300 => small, 1 => composite].boxed()
+        // the reduction keeps per-argument tables (quadratic memory by design): tens of thousands of distinct
+        // arguments are out of its reach, a line repeated 2^16 times is not
+        let huge = crate::checks::hugefan::strategy().prop_map(|mut h| {
+            if !h.repeated_line && h.k > 300 {
+                h.repeated_line = true;
+            }
+            EquivAny::HugeFan(h)
+        });
+        prop_oneof![6000 => small, 20 => composite, 1 => huge].boxed()
     }
     fn n_cases(&self, tier: Tier) -> u32 {
         tier.pick(2_000_000, 20_000_000)
@@ -280,6 +290,7 @@ impl Prop for Equiv {
         let case = match any {
             EquivAny::Small(c) => c,
             EquivAny::Composite(cc) => return run_composite(cc, rec),
+            EquivAny::HugeFan(h) => return crate::checks::hugefan::run_equiv(h, rec),
         };
         rec.class(&format!("pres-{}", case.pres.kind()));
         match build(case) {
